@@ -26,7 +26,7 @@ const rtPath = modPath + "/verifrt/"
 
 // names redirected to the shims; everything else in these packages stays real
 var redirect = map[string]map[string]string{
-	"sync": set("vsync", "Mutex", "RWMutex", "WaitGroup", "Once", "Cond", "NewCond", "OnceFunc", "OnceValue", "OnceValues"),
+	"sync": set("vsync", "Mutex", "RWMutex", "WaitGroup", "Once", "Cond", "NewCond", "OnceFunc", "OnceValue", "OnceValues", "Pool"),
 	"sync/atomic": set("vatomic", "Int32", "Int64", "Uint32", "Uint64", "Uintptr", "Bool", "Pointer", "Value",
 		"LoadInt32", "StoreInt32", "SwapInt32", "CompareAndSwapInt32", "AddInt32",
 		"LoadInt64", "StoreInt64", "SwapInt64", "CompareAndSwapInt64", "AddInt64",
